@@ -184,6 +184,34 @@ func ra4Symbols(w *World) {
 						}
 					}
 				}
+				// the comma-ok lookup may live in a helper of the same receiver:
+				// `existing, child, ok = s.lookupPackageLocked(pkg)` whose body starts with
+				// `entry, found = s.<table>[<param>]` and returns found as its last result
+				if len(as.Lhs) >= 2 && len(as.Rhs) == 1 {
+					if c, ok := ast.Unparen(as.Rhs[0]).(*ast.CallExpr); ok && len(c.Args) == 1 && recvExpr(c) != nil {
+						if hf := callee(info, c); hf != nil {
+							if hd := w.decls[hf.Origin()]; hd != nil && hd.Body != nil && len(hd.Body.List) > 0 && hd.Type.Params.NumFields() == 1 && len(hd.Type.Params.List[0].Names) == 1 {
+								pname := hd.Type.Params.List[0].Names[0].Name
+								if first, ok := hd.Body.List[0].(*ast.AssignStmt); ok && len(first.Lhs) == 2 && len(first.Rhs) == 1 {
+									if _, _, hkey, ok := isGuardedIndex(first.Rhs[0]); ok && hkey == pname {
+										okName := render(first.Lhs[1])
+										returnsOK := false
+										ast.Inspect(hd.Body, func(y ast.Node) bool {
+											if r, isR := y.(*ast.ReturnStmt); isR {
+												returnsOK = len(r.Results) == 0 || render(r.Results[len(r.Results)-1]) == okName
+											}
+											return true
+										})
+										base := render(recvExpr(c))
+										if returnsOK && (out["W:"+base+".mu"] || out["W:"+base+".extDeclsMu"]) {
+											out = out.with("okvar:" + render(as.Lhs[len(as.Lhs)-1]) + "=" + base + "[" + render(c.Args[0]) + "]")
+										}
+									}
+								}
+							}
+						}
+					}
+				}
 			}
 			return out
 		}
